@@ -6,7 +6,6 @@
   driver instantiates it with the soft-float implementation of Base/F64.lean.
 -/
 import SoyVerif.Model.Ast
-import SoyVerif.Base.Utf8
 
 namespace SoyVerif.Model.Printer
 open SoyVerif SoyVerif.Model
@@ -52,21 +51,19 @@ def precedenceOf : Expr → Nat
   | .bin op .. => binPrec op
   | _ => precPrimary
 
-/-- one rune of ast.quoteString: the escapes are all ASCII, every other rune is written with
-    `WriteRune` (so the replacement rune U+FFFD, which `range` yields for an invalid byte, is
-    written as EF BF BD) -/
-def quoteRune (r : Nat) : Bytes :=
-  if r == 92 then [92, 92]          -- \
-  else if r == 39 then [92, 39]     -- '
-  else if r == 10 then [92, 110]
-  else if r == 13 then [92, 114]
-  else if r == 9 then [92, 116]
-  else if r == 8 then [92, 98]
-  else if r == 12 then [92, 102]
-  else Utf8.encodeRune r
+/-- one byte of ast.quoteString: the escapes, every other byte is copied -/
+def quoteByte (b : UInt8) : Bytes :=
+  if b == 92 then [92, 92]          -- \\
+  else if b == 39 then [92, 39]     -- '
+  else if b == 10 then [92, 110]
+  else if b == 13 then [92, 114]
+  else if b == 9 then [92, 116]
+  else if b == 8 then [92, 98]
+  else if b == 12 then [92, 102]
+  else [b]
 
-/-- ast.quoteString: a Soy string literal for `s`, rune by rune (`for _, ch := range s`) -/
-def quoteString (s : Bytes) : Bytes := [39] ++ (Utf8.runes s).flatMap quoteRune ++ [39]
+/-- ast.quoteString: a Soy string literal for `s`, byte by byte (`for i := 0; i < len(s); i++`) -/
+def quoteString (s : Bytes) : Bytes := [39] ++ s.flatMap quoteByte ++ [39]
 
 section
 variable (ff : UInt64 → Bytes)
